@@ -458,7 +458,7 @@ def gen(rng: random.Random, tier: str):
     # ---- large trees (101-400 nodes) with sparse / late attributes, late type changes
     for k in range(9 if quick else 90):
         style = ["wide", "deep", "mixed"][k % 3]
-        n = rng.randint(101, 400)
+        n = rng.randint(101, 400) if k else rng.randint(1001, 1200)     # one tree beyond 1000 rows
         spec, keys = large_tree(rng, n, style)
         depth = max(len(a) for a, _s in core.spec_nodes(spec)) + 1
         for fmt in ("dict", "pandas", "polars"):
